@@ -51,18 +51,43 @@ def check_ref_from_ptr(ctx, F, hty, size_field_off, rule="A2"):
     rt, _ = A.ret()
     rfs = "multiboot2_common::DynSizedStructure::<%s>::ref_from_slice" % hty
     good = False
-    how = G.show(rt)
+    how = G.show(rt) if rt is not None else "several exits"
+    a = F.adts.get(hty)
+    fidx = [f["i"] for f in a["fields"] if f["off"] == size_field_off and f["size"] == 4]
+
+    def is_region(rs):
+        """from_raw_parts(ptr as *u8, zext(raw size field of *ptr))"""
+        return rs[0] == "rawslice" and rs[1] == arg(1) and bool(fidx) and rs[2] == fld(deref(arg(1)), fidx[0])
     if rt is not None:
         n = N(rt)
-        if n[0] == "call" and n[1] == rfs and len(n[2]) == 1 and n[2][0][0] == "rawslice":
-            rs = n[2][0]
-            ptr, ln = rs[1], rs[2]
-            a = F.adts.get(hty)
-            fidx = [f["i"] for f in a["fields"] if f["off"] == size_field_off and f["size"] == 4]
-            good = ptr == arg(1) and fidx and ln == fld(deref(arg(1)), fidx[0])
+        if n[0] == "call" and n[1] == rfs and len(n[2]) == 1:
+            good = is_region(n[2][0])
+    if not good:
+        # ref_from_slice written out in place: the same two exits over the same region
+        from . import c14
+        ex = CH.exits(A)
+        regions = set()
+        for e in ex:
+            for x in G_subterms(N(e.val)) + [y for f in e.own for y in G_subterms(N(f))]:
+                if isinstance(x, tuple) and x and x[0] == "rawslice":
+                    regions.add(x)
+        if len(regions) == 1:
+            rs = next(iter(regions))
+            good = is_region(rs) and c14.is_ref_from_slice_of(ex, hty, rs)
+            how = "ref_from_slice expanded in place over %s" % G.show(rs)[:120]
     return ctx.check(good, rule, "ref_from_ptr<%s>" % hty.split("::")[-1],
                      "ref_from_ptr views exactly [ptr, ptr + zext(raw declared size)) and hands it to ref_from_slice (errors of C14's chain)",
                      A.site(), how=how, why=how)
+
+
+def G_subterms(t, acc=None):
+    acc = acc if acc is not None else []
+    if isinstance(t, tuple):
+        acc.append(t)
+        for x in t:
+            if isinstance(x, tuple):
+                G_subterms(x, acc)
+    return acc
 
 
 def same_ptr(a, b):
@@ -158,6 +183,19 @@ def run(ctx):
             ctx.check(good, "A2", "load:3:predicate", "the NoEndTag exit is taken exactly when the end-tag predicate on the loaded structure is false",
                       A.site(preds[0][0].bb), how=G.show(preds[0][1]), why=G.show(preds[0][1]))
     check_ref_from_ptr(ctx, F, HDR, 0)
+    # who constructs the wrapper: only load's success exit - the premise of the size invariant I-BI used by its methods
+    ctors_ = []
+    for k_, f_ in F.fns.items():
+        for bb_ in f_["body"]["blocks"]:
+            if bb_.get("cleanup"):
+                continue
+            for st_ in bb_["s"]:
+                if st_["k"] == "assign" and st_["rv"]["k"] == "aggr" and st_["rv"].get("adt") == "multiboot2::boot_information::BootInformation":
+                    ctors_.append(f_)
+    bad_ = sorted({str(f_.get("path")) for f_ in ctors_ if not (f_.get("name") == "load" or f_.get("derived"))})
+    ctx.check(bool(ctors_) and not bad_, "A2", "I-BI:who-constructs", "BootInformation values are built only by load() (and derived Clone): every one satisfies "
+              "`declared size >= header size` (the memory exit of load precedes the success exit; C14.B1)", "",
+              how="%d construction sites, all in load" % len(ctors_), why="other constructors: %s" % bad_)
     ctx.note("errors of ref_from_slice (ShorterThanHeader < WrongAlignment < MissingPadding < InvalidReportedTotalSize) are premises C14.B1/B3/B5; "
              "under the property's hypothesis (8-aligned pointer, slice formed from the declared size) WrongAlignment and "
              "InvalidReportedTotalSize cannot fire (hand step, DESIGN.md §4 C02)")
@@ -205,6 +243,31 @@ def run(ctx):
                 if len(ptrs) == 2:
                     pns = [G.ptr_norm(p) for p in ptrs]
                     ptr_ok = all(pn is not None and N(pn[0]) == ("asptr", payload) and pn[1].key() == exp_off.key() for pn in pns)
+                    if not ptr_ok:
+                        # the same address written from the structure's base: offsets are compared relative to the base, with
+                        # payload.as_ptr() = base + 8 (layout) and saturating_sub(total_size, 8) = total_size - 8 (I-BI: total_size >= 8)
+                        tot = G.lin(("fld", ("fld", ("deref", ("fld", ("deref", ("arg", 1, "&multiboot2::boot_information::BootInformation<'_>")), 0, "0",
+                                                              "&multiboot2_common::DynSizedStructure<%s>" % HDR)), 0, "header", HDR), 0, "total_size", "u32"))
+                        want_rel = tot.add(G.Lin(8), -1)            # base + total_size - 8
+
+                        def rel(pn):
+                            if pn is None:
+                                return None
+                            base_t, off = N(pn[0]), pn[1]
+                            # replace the saturating atom by its exact value under the invariant
+                            o2 = G.Lin(off.c)
+                            for a_, c_ in off.m.items():
+                                if isinstance(a_, tuple) and a_ and a_[0] == "saturating" and a_[1] == "Sub" and G.lin(a_[2][0]).key() == tot.key() and G.strip(a_[2][1]) == ("c", 8):
+                                    o2 = o2.add(tot.add(G.Lin(8), -1), c_)
+                                else:
+                                    o2 = o2.add(G.Lin(0, {a_: 1}), c_)
+                            if base_t == ("asptr", payload):
+                                return o2.add(G.Lin(8))
+                            if base_t == inner:
+                                return o2
+                            return None
+                        rels = [rel(pn) for pn in pns]
+                        ptr_ok = all(r is not None and r.key() == want_rel.key() for r in rels)
         ctx.check(good and size_ok and typ_ok and conj, "A3", "end-tag:conjunction",
                   "the end-tag predicate is (u32 image of stored type == u32 image of TagType::End) && (zext(stored size) == 8)",
                   B.site(), how="exits %s" % [G.show(e.val)[:80] for e in exs], why="exits %s" % [(G.show(e.val)[:200], [G.show(f)[:200] for f in e.own]) for e in exs])
